@@ -11,6 +11,8 @@ CLAIMS = {
          'static analysis: MIR dominance/path rules, sibling-region comparison, predicate evaluation over all k'),
  'C10': ('other', 'Decides the history-independence clause that is visible in code shape: the serialised derived field variant_count is recounted (in the mode the decision needs) before every decision that reads it; who-may-read tables for the non-content fields variant_count/ska_version/k_bits; recount after column deletion. Equality with a plain-table model over all operation histories is not enumerated.',
          'static analysis: typestate/dominance over MIR, who-may-read field tables'),
+ 'C11': ('other', 'Decides the schedule-independent structure: on every path of every subcommand arm the global rayon pool is initialised fatally at most once (interprocedural effect counting with result-variant-indexed summaries, so mutually exclusive load outcomes are not added); every closure handed to rayon outside skalo captures no shared mutable state; par_bridge only in skalo and distance rows gathered by an indexed collect; parallel_append/multi_append pass (bottom, offset) and (top, offset+split_point) with sample index = enumerate index + offset; the join combiner is bitwise OR. Equality of `ska lo` outputs across schedules depends on run-time hash seeds and is not decided.',
+         'static analysis: interprocedural typestate/effect summaries over MIR, closure capture audit, affine provenance of offsets'),
  'C15': ('proof', 'All constrained cells of IUPAC (1024), RC_IUPAC (255), is_ambiguous, base_to_prob, encode/decode/rc/valid_base and the two use sites are enumerated from const-eval and MIR and compared with the IUPAC set algebra; finite domain, complete.',
          'static analysis: const-evaluated table enumeration + finite-domain abstract interpretation of MIR'),
  'C16': ('proof', 'For every (width, k, strand mode) — 88 configurations — the packing, reverse-complement, rolling and ntHash code is abstractly interpreted over MIR with every base a pair of symbolic bits (bit-provenance domain; XOR-term domain for hashes); each obligation compares the resulting provenance vector with the specified layout, so each configuration covers all 4^k k-mers. rev_comp is checked for every size n up to W/2. N-skipping control flow is decided under C01/C12.',
